@@ -1361,7 +1361,8 @@ impl Checker {
             }
         };
 
-        let resolved_path = working_dir.join(path);
+        // Normalized so that a cycle through `a/../b` spellings is seen as one.
+        let resolved_path = crate::path::normalize_absolute(working_dir.join(path));
 
         // Check the cache first
         if let Some(cached) = self.shape_cache.borrow().get(&resolved_path) {
